@@ -16,9 +16,12 @@ class Item:
     """One item extracted from /repo.  path: header list for rsx.find_item.  edits: rsx edits (anchored in the
     pinned text).  features: cfg(feature) set for T10 (None = leave cfg attributes to T5)."""
 
-    def __init__(self, name, src, path, edits=(), strip_attrs=True, features=None, root=None):
+    def __init__(self, name, src, path, edits=(), strip_attrs=True, features=None, root=None, wrap=None, block=None):
         self.name, self.src, self.path, self.edits = name, src, path, list(edits)
         self.strip_attrs, self.features, self.root = strip_attrs, features, root
+        # wrap: (prefix, suffix) ghost/header text put around the extracted text (T2 re-homing / T11 block lifting)
+        # block: (anchor_after, anchor_before) - T11: the statements strictly between two structural anchors of the item
+        self.wrap, self.block = wrap, block
 
 
 class Unit:
@@ -51,6 +54,14 @@ def current_item_text(item):
     text = read_repo(item.src, item.root)
     src = rsx.Src(text)
     s, e, _, _ = rsx.find_item(src, item.path)
+    if item.block:
+        fsrc = rsx.Src(text[s:e])
+        ra, rb = rsx.resolve(fsrc, item.block[0]), rsx.resolve(fsrc, item.block[1])
+        a = fsrc.sig[ra[1]][2] if ra[0] == 'pt' else fsrc.sig[ra[2]][2]
+        b = fsrc.sig[rb[1]][1]
+        if not a <= b:
+            raise rsx.ItemNotFound('block anchors out of order')
+        return fsrc.text[a:b].strip('\n')
     return text[s:e]
 
 
@@ -86,7 +97,7 @@ def build(unit, extra_edits=None):
     for it in unit.items:
         try:
             cur = current_item_text(it)
-        except (rsx.ItemNotFound, FileNotFoundError, rsx.LexError) as ex:
+        except (rsx.ItemNotFound, rsx.AnchorLost, FileNotFoundError, rsx.LexError) as ex:
             raise Undecided('unit %s: item %s not found in %s: %s' % (unit.name, it.name, it.src, ex))
         try:
             with open(pinned_path(unit, it), encoding='utf-8') as f:
@@ -105,6 +116,8 @@ def build(unit, extra_edits=None):
                 outlined_bodies[r['cid']] = r['original']
         parts.append('// ==== item %s  <- %s :: %s  sha256=%s changed_vs_pinned=%s\n'
                      % (it.name, it.src, ' :: '.join(it.path), rsx.sha(cur)[:16], cur != pinned))
+        if it.wrap:
+            ann = '/*@+wrap*/' + it.wrap[0] + '/*@-*/' + ann + '/*@+wrap*/' + it.wrap[1] + '/*@-*/'
         parts.append(ann + '\n')
         prov['items'].append({'name': it.name, 'src': it.src, 'path': it.path, 'sha256': rsx.sha(cur),
                               'changed_vs_pinned': cur != pinned,
